@@ -156,7 +156,7 @@ func parseIndexSection(sectionContents []byte, sectionsStart uint64, sos []secti
 	}
 	respSectionOffset := sectionsStart + respSectionRelOffset
 	makeRelativeToStream := func(offset, length uint64) (uint64, uint64, error) {
-		if offset+length > respso.Length {
+		if offset > respso.Length || length > respso.Length-offset {
 			return 0, 0, errors.New("bundle.index: response length out-of-range")
 		}
 		return respSectionOffset + offset, length, nil
@@ -217,7 +217,7 @@ func parseIndexSectionWithVariants(sectionContents []byte, sectionsStart uint64,
 	}
 	respSectionOffset := sectionsStart + respSectionRelOffset
 	makeRelativeToStream := func(offset, length uint64) (uint64, uint64, error) {
-		if offset+length > respso.Length {
+		if offset > respso.Length || length > respso.Length-offset {
 			return 0, 0, errors.New("bundle.index: response length out-of-range")
 		}
 		return respSectionOffset + offset, length, nil
@@ -507,10 +507,10 @@ func loadMetadata(bs []byte) (*meta, error) {
 		if uint64(len(bs)) <= offset {
 			return nil, &LoadMetadataError{fmt.Errorf("bundle: section %q's computed offset %q out-of-range.", so.Name, offset), FormatError, fallbackURL}
 		}
-		end := offset + so.Length
-		if uint64(len(bs)) <= end {
-			return nil, &LoadMetadataError{fmt.Errorf("bundle: section %q's end %q out-of-range.", so.Name, end), FormatError, fallbackURL}
+		if so.Length >= uint64(len(bs))-offset {
+			return nil, &LoadMetadataError{fmt.Errorf("bundle: section %q's length %d out-of-range.", so.Name, so.Length), FormatError, fallbackURL}
 		}
+		end := offset + so.Length
 
 		sectionContents := bs[offset:end]
 
@@ -568,6 +568,9 @@ var reStatus = regexp.MustCompile("^\\d\\d\\d$")
 
 // https://wicg.github.io/webpackage/draft-yasskin-dispatch-bundled-exchanges.html#load-response
 func loadResponse(req requestEntryWithOffset, bs []byte) (Response, error) {
+	if req.Offset > uint64(len(bs)) || req.Length > uint64(len(bs))-req.Offset {
+		return Response{}, fmt.Errorf("bundle: response location out-of-range")
+	}
 	r := bytes.NewBuffer(bs[req.Offset : req.Offset+req.Length])
 
 	b, err := r.ReadByte()
